@@ -425,3 +425,570 @@ Proof.
       * rewrite E. cbn. auto.
       * rewrite E. cbn. auto.
 Qed.
+
+(* ------------------------------------------------------------------ merge_node / Merge::merge *)
+Definition chrows (h : nat) (ch : list (N * ght)) : list row :=
+  flat_map (fun kc => riter h (snd kc)) ch.
+
+Lemma chrows_app h a b : chrows h (a ++ b) = chrows h a ++ chrows h b.
+Proof. apply flat_map_app. Qed.
+Lemma chrows_cons h k v rest : chrows h ((k, v) :: rest) = riter h v ++ chrows h rest.
+Proof. reflexivity. Qed.
+Lemma chrows_one h k v : chrows h [(k, v)] = riter h v.
+Proof. unfold chrows. cbn. apply app_nil_r. Qed.
+
+Lemma subset_b_spec a b : subset_b a b = true <-> incl a b.
+Proof.
+  unfold subset_b. rewrite forallb_forall. unfold incl.
+  split; intros H x i; [apply mem_in, H, i|apply mem_in, H, i].
+Qed.
+
+Lemma subset_b_app l1 l2 m : subset_b (l1 ++ l2) m = subset_b l1 m && subset_b l2 m.
+Proof. apply forallb_app. Qed.
+
+Lemma mem_ext l1 l2 x : (In x l1 <-> In x l2) -> mem l1 x = mem l2 x.
+Proof.
+  intros H. destruct (mem l1 x) eqn:E1, (mem l2 x) eqn:E2; try reflexivity.
+  - apply mem_in, H, mem_in in E1. congruence.
+  - apply mem_in, H, mem_in in E2. congruence.
+Qed.
+
+Lemma subset_b_ext l m1 m2 :
+  (forall x, In x l -> (In x m1 <-> In x m2)) -> subset_b l m1 = subset_b l m2.
+Proof.
+  intros H. unfold subset_b. induction l as [|x l IH]; [reflexivity|]. cbn.
+  rewrite (mem_ext m1 m2 x) by (apply H; left; reflexivity).
+  rewrite IH; [reflexivity|]. intros y i. apply H. right. assumption.
+Qed.
+
+Lemma subset_b_false l m x : In x l -> ~ In x m -> subset_b l m = false.
+Proof.
+  intros i n. apply not_true_is_false. intros S. apply subset_b_spec in S. apply n, S, i.
+Qed.
+
+Lemma creplace_keys ch k c : map fst (creplace ch k c) = map fst ch.
+Proof.
+  induction ch as [|[k' c'] ch IH]; [reflexivity|]. cbn.
+  destruct (N.eqb_spec k k'); cbn; [subst; reflexivity|]. rewrite IH. reflexivity.
+Qed.
+
+Lemma creplace_forall (P : N * ght -> Prop) ch k c :
+  Forall P ch -> P (k, c) -> Forall P (creplace ch k c).
+Proof.
+  induction 1 as [|[k' c'] ch p F IH]; intros Pk; cbn; [constructor|].
+  destruct (N.eqb_spec k k'); [subst; constructor; assumption|].
+  constructor; [assumption|apply IH, Pk].
+Qed.
+
+Lemma creplace_rows h ch k c c' (V : list row) x :
+  cget ch k = Some c ->
+  (In x (riter h c') <-> In x (riter h c) \/ In x V) ->
+  (In x (chrows h (creplace ch k c')) <-> In x (chrows h ch) \/ In x V).
+Proof.
+  intros G M. induction ch as [|[k' c0] ch IH]; [discriminate|]. cbn in G. cbn [creplace].
+  destruct (N.eqb_spec k k').
+  - inversion G; subst. unfold chrows. cbn [flat_map snd]. rewrite !in_app_iff, M. tauto.
+  - unfold chrows in *. cbn [flat_map snd]. rewrite !in_app_iff, (IH G). tauto.
+Qed.
+
+Lemma chrows_head h d ch x :
+  Forall (child_ok (wf h (S d)) (riter h) d) ch -> In x (chrows h ch) -> In (head d x) (map fst ch).
+Proof.
+  intros F i. apply in_flat_map in i as [[k c] [i ix]]. rewrite Forall_forall in F.
+  destruct (F _ i) as (_ & _ & H). cbn in *. rewrite Forall_forall in H. rewrite (H _ ix).
+  apply (in_map fst) in i. exact i.
+Qed.
+
+Definition merge_ok (h : nat) : Prop :=
+  forall d a b, wf h d a -> wf h d b ->
+    wf h d (fst (merge h a b)) /\
+    (forall x, In x (riter h (fst (merge h a b))) <-> In x (riter h a) \/ In x (riter h b)) /\
+    snd (merge h a b) = negb (subset_b (riter h b) (riter h a)).
+
+Lemma merge_leaf ra rb : NoDup ra -> NoDup rb ->
+  let s := hs_extend ra rb in
+  NoDup s /\ (forall x, In x s <-> In x ra \/ In x rb) /\
+  Nat.ltb (hs_len ra) (hs_len s) = negb (subset_b rb ra).
+Proof.
+  intros na nb s. destruct (leaf_extend_spec rb na) as [ns M]. fold s in ns, M.
+  split; [assumption|split; [assumption|]]. unfold hs_len.
+  destruct (subset_b rb ra) eqn:S; cbn.
+  - apply subset_b_spec in S. apply Nat.ltb_ge.
+    apply NoDup_incl_length; [assumption|]. intros x i. apply M in i as [i|i]; [assumption|apply S, i].
+  - apply Nat.ltb_lt. destruct (Nat.lt_ge_cases (length ra) (length s)) as [l|g]; [assumption|].
+    exfalso. assert (I : incl s ra).
+    { apply NoDup_length_incl; [assumption|assumption|]. intros x i. apply M. tauto. }
+    assert (subset_b rb ra = true); [|congruence]. apply subset_b_spec. intros x i.
+    apply I, M. tauto.
+Qed.
+
+Section MergeFold.
+  Variables (h d : nat).
+  Hypothesis IH : merge_ok h.
+  Let ok := child_ok (wf h (S d)) (riter h) d.
+  Let stepf := fun (acc : list (N * ght) * bool) (kv : N * ght) =>
+                 let '(ca, changed) := acc in
+                 match cget ca (fst kv) with
+                 | Some c => let '(c', chg) := merge h c (snd kv) in
+                             (creplace ca (fst kv) c', changed || chg)
+                 | None => (ca ++ [kv], true)
+                 end.
+
+  Lemma merge_fold rest : forall cur chg,
+    NoDup (map fst cur) -> Forall ok cur -> NoDup (map fst rest) -> Forall ok rest ->
+    let res := fold_left stepf rest (cur, chg) in
+    NoDup (map fst (fst res)) /\ Forall ok (fst res) /\
+    (forall x, In x (chrows h (fst res)) <-> In x (chrows h cur) \/ In x (chrows h rest)) /\
+    snd res = chg || negb (subset_b (chrows h rest) (chrows h cur)).
+  Proof.
+    induction rest as [|[k v] rest IHr]; intros cur chg ndc Fc ndr Fr; cbn zeta.
+    - cbn. split; [assumption|split; [assumption|split]].
+      + intros x. tauto.
+      + rewrite orb_false_r. reflexivity.
+    - inversion ndr as [|? ? nk ndr']; inversion Fr as [|? ? okv Fr']; subst.
+      destruct okv as (Wv & NEv & Hv). cbn [fst snd] in Wv, NEv, Hv.
+      rewrite Forall_forall in Hv.
+      cbn [fold_left].
+      assert (Estep : stepf (cur, chg) (k, v) =
+                      match cget cur k with
+                      | Some c => let '(c', g) := merge h c v in (creplace cur k c', chg || g)
+                      | None => (cur ++ [(k, v)], true)
+                      end) by reflexivity.
+      rewrite Estep. clear Estep.
+      (* rows of the remaining children never have head k *)
+      assert (RestHead : forall x, In x (chrows h rest) -> head d x <> k).
+      { intros x i e. apply (@chrows_head h d rest x Fr') in i. rewrite e in i. tauto. }
+      destruct (cget cur k) as [c|] eqn:G.
+      + (* Occupied: merge into the existing child *)
+        pose proof G as Gin. apply cget_in in Gin.
+        pose proof Fc as Fc0. rewrite Forall_forall in Fc0.
+        destruct (Fc0 _ Gin) as (Wc & NEc & Hc). cbn [fst snd] in Wc, NEc, Hc.
+        rewrite Forall_forall in Hc.
+        destruct (IH (S d) c v Wc Wv) as (W' & M' & Fl').
+        destruct (merge h c v) as [c' g]. cbn [fst snd] in W', M', Fl'.
+        assert (okc' : ok (k, c')).
+        { split; [exact W'|split]; cbn [fst snd].
+          - destruct (riter h c) as [|r0 l] eqn:E; [congruence|]. intros E'.
+            assert (i : In r0 (riter h c')) by (apply M'; left; left; reflexivity).
+            rewrite E' in i. exact i.
+          - apply Forall_forall. intros x i. apply M' in i as [i|i]; [apply Hc, i|apply Hv, i]. }
+        assert (Rows1 : forall x, In x (chrows h (creplace cur k c')) <->
+                                  In x (chrows h cur) \/ In x (riter h v)).
+        { intros x. apply (@creplace_rows h cur k c c' (riter h v) x G), M'. }
+        destruct (IHr (creplace cur k c') (chg || g)) as (nd2 & F2 & M2 & Fl2);
+          [rewrite creplace_keys; assumption|apply creplace_forall; assumption|assumption|assumption|].
+        split; [exact nd2|split; [exact F2|split]].
+        * intros x. rewrite M2, Rows1, chrows_cons, in_app_iff. tauto.
+        * rewrite Fl2, Fl', chrows_cons, subset_b_app.
+          (* rows of v are compared with child c only; the rest never meets v's rows *)
+          assert (S1 : subset_b (riter h v) (riter h c) = subset_b (riter h v) (chrows h cur)).
+          { apply subset_b_ext. intros x i. specialize (Hv _ i).
+            pose proof (@in_rows_crows h d cur x ndc Fc) as Q. cbn [riter] in Q. fold (chrows h cur) in Q.
+            rewrite Q. unfold crows. rewrite Hv, G. tauto. }
+          assert (S2 : subset_b (chrows h rest) (chrows h (creplace cur k c')) =
+                       subset_b (chrows h rest) (chrows h cur)).
+          { apply subset_b_ext. intros x i. rewrite Rows1. split; [|tauto].
+            intros [j|j]; [assumption|]. exfalso. apply (RestHead x i), Hv, j. }
+          rewrite S1, S2.
+          destruct chg, (subset_b (riter h v) (chrows h cur)), (subset_b (chrows h rest) (chrows h cur));
+            reflexivity.
+      + (* Vacant: the child is moved in *)
+        assert (nin : ~ In k (map fst cur)) by (apply cget_none, G).
+        destruct (IHr (cur ++ [(k, v)]) true) as (nd2 & F2 & M2 & Fl2).
+        * rewrite map_app. cbn. apply NoDup_snoc; assumption.
+        * apply Forall_app. split; [assumption|]. constructor; [|constructor].
+          split; [exact Wv|split; [exact NEv|]]. cbn [fst snd]. apply Forall_forall, Hv.
+        * assumption.
+        * assumption.
+        * split; [exact nd2|split; [exact F2|split]].
+          -- intros x. rewrite M2, chrows_app, chrows_one, chrows_cons, !in_app_iff. tauto.
+          -- rewrite Fl2. cbn [orb]. rewrite chrows_cons, subset_b_app.
+             destruct (riter h v) as [|r0 l] eqn:E; [congruence|].
+             rewrite (@subset_b_false (r0 :: l) (chrows h cur) r0); [destruct chg; reflexivity|left; reflexivity|].
+             intros i. apply (@chrows_head h d cur r0 Fc) in i. rewrite (Hv r0) in i; [tauto|left; reflexivity].
+  Qed.
+End MergeFold.
+
+Theorem merge_spec h : merge_ok h.
+Proof.
+  induction h as [|h IH]; intros d a b Wa Wb.
+  - destruct a as [ra|], b as [rb|]; try contradiction. cbn [merge fst snd wf riter].
+    apply merge_leaf; assumption.
+  - destruct a as [|ca], b as [|cb]; try contradiction.
+    destruct Wa as [nda Fa], Wb as [ndb Fb].
+    pose proof (@merge_fold h d IH cb ca false nda Fa ndb Fb) as L. cbn zeta in L.
+    cbn [merge]. 
+    match goal with |- context [fold_left ?f cb (ca, false)] => set (res := fold_left f cb (ca, false)) in * end.
+    destruct res as [ca' changed]. cbn [fst snd] in *. destruct L as (nd' & F' & M' & Fl').
+    cbn [wf riter]. fold (chrows h ca') (chrows h ca) (chrows h cb).
+    split; [split; assumption|split; [exact M'|exact Fl']].
+Qed.
+
+(* ------------------------------------------------------------------ is_bot, PartialEq *)
+Lemma is_bot_spec h : forall d t, wf h d t -> (is_bot h t = true <-> riter h t = []).
+Proof.
+  induction h as [|h IH]; intros d t W.
+  - destruct t as [rows|]; [|contradiction]. cbn. unfold hs_is_empty.
+    destruct rows; cbn; split; congruence.
+  - destruct t as [|ch]; [contradiction|]. destruct W as [nd F]. cbn [is_bot riter].
+    destruct ch as [|[k c] ch]; [cbn; tauto|]. inversion F as [|? ? (W & NE & _) F']; subst.
+    cbn [forallb flat_map snd fst] in *. split.
+    + intros B. apply andb_true_iff in B as [B _]. apply (IH _ _ W) in B. congruence.
+    + intros E. apply app_eq_nil in E as [E _]. congruence.
+Qed.
+
+Lemma keys_heads h d ch k :
+  Forall (child_ok (wf h (S d)) (riter h) d) ch ->
+  (In k (map fst ch) <-> exists x, In x (chrows h ch) /\ head d x = k).
+Proof.
+  intros F. split.
+  - intros i. apply in_map_iff in i as [[k' c] [e i]]. cbn in e. subst k'.
+    pose proof F as F0. rewrite Forall_forall in F0. destruct (F0 _ i) as (_ & NE & H).
+    cbn [fst snd] in *. destruct (riter h c) as [|x l] eqn:E; [congruence|].
+    exists x. split.
+    + apply in_flat_map. exists (k, c). split; [assumption|]. cbn. rewrite E. left. reflexivity.
+    + rewrite Forall_forall in H. apply H. left. reflexivity.
+  - intros [x [i e]]. subst k. apply (@chrows_head h d ch x F i).
+Qed.
+
+Lemma peq_spec h : forall d a b, wf h d a -> wf h d b ->
+  (peq h a b = true <-> incl (riter h a) (riter h b) /\ incl (riter h b) (riter h a)).
+Proof.
+  induction h as [|h IH]; intros d a b Wa Wb.
+  - destruct a as [ra|], b as [rb|]; try contradiction. cbn in *.
+    rewrite (hs_eq_spec (nodup_Rset Wa) (nodup_Rset Wb)), set_eqb_spec. split.
+    + intros H. split; intros x i; apply mem_in; [rewrite <- H|rewrite H]; apply mem_in, i.
+    + intros [I J] r. apply mem_ext. split; [apply I|apply J].
+  - destruct a as [|ca], b as [|cb]; try contradiction.
+    destruct Wa as [nda Fa], Wb as [ndb Fb]. cbn [peq].
+    pose proof (@incl_rows_crows h d ca cb nda Fa ndb Fb) as IAB.
+    pose proof (@incl_rows_crows h d cb ca ndb Fb nda Fa) as IBA.
+    pose proof Fa as Fa0. pose proof Fb as Fb0. rewrite Forall_forall in Fa0, Fb0.
+    split.
+    + (* equal children => equal row sets *)
+      destruct (Nat.eqb_spec (length ca) (length cb)) as [L|]; [cbn [negb]|discriminate].
+      rewrite forallb_forall. intros H.
+      assert (Each : forall k c, In (k, c) ca -> exists o, cget cb k = Some o /\
+                       incl (riter h c) (riter h o) /\ incl (riter h o) (riter h c)).
+      { intros k c i. specialize (H _ i). cbn [fst] in H.
+        destruct (cget cb k) as [o|] eqn:Gb; [|discriminate]. rewrite (in_cget _ _ _ nda i) in H.
+        exists o. split; [reflexivity|].
+        destruct (Fa0 _ i) as (Wc & _). pose proof (cget_in _ _ Gb) as ib.
+        destruct (Fb0 _ ib) as (Wo & _). apply (IH _ _ _ Wc Wo), H. }
+      assert (KI : incl (map fst ca) (map fst cb)).
+      { intros k i. apply in_map_iff in i as [[k' c] [e i]]. cbn in e. subst k'.
+        destruct (Each _ _ i) as (o & G & _). apply cget_in in G. apply (in_map fst) in G. exact G. }
+      assert (KJ : incl (map fst cb) (map fst ca)).
+      { apply NoDup_length_incl; [assumption|rewrite !map_length; lia|assumption]. }
+      split.
+      * apply IAB. intros k x i. unfold crows in *. destruct (cget ca k) as [c|] eqn:Ga; [|contradiction].
+        apply cget_in in Ga. destruct (Each _ _ Ga) as (o & G & I & _). rewrite G. apply I, i.
+      * apply IBA. intros k x i. unfold crows in *. destruct (cget cb k) as [o|] eqn:Gb; [|contradiction].
+        assert (ik : In k (map fst ca)) by (apply KJ; apply cget_in in Gb; apply (in_map fst) in Gb; exact Gb).
+        apply in_map_iff in ik as [[k' c] [e ic]]. cbn in e. subst k'.
+        destruct (Each _ _ ic) as (o' & G & _ & J). rewrite (in_cget _ _ _ nda ic).
+        assert (o' = o) by congruence. subst o'. apply J, i.
+    + (* equal row sets => equal children *)
+      intros [I J].
+      assert (KK : forall k, In k (map fst ca) <-> In k (map fst cb)).
+      { intros k. rewrite (@keys_heads h d ca k Fa), (@keys_heads h d cb k Fb). cbn [riter] in I, J.
+        fold (chrows h ca) (chrows h cb) in I, J.
+        split; intros [x [i e]]; exists x; (split; [|assumption]); [apply I|apply J]; assumption. }
+      assert (L : length ca = length cb).
+      { rewrite <- (map_length fst ca), <- (map_length fst cb). apply Nat.le_antisymm;
+          apply NoDup_incl_length; try assumption; intros k i; apply KK; assumption. }
+      rewrite L, Nat.eqb_refl. cbn [negb]. apply forallb_forall. intros [k c] i. cbn [fst].
+      assert (ik : In k (map fst cb)) by (apply KK; apply (in_map fst) in i; exact i).
+      apply in_map_iff in ik as [[k' o] [e io]]. cbn in e. subst k'.
+      rewrite (in_cget _ _ _ ndb io), (in_cget _ _ _ nda i).
+      destruct (Fa0 _ i) as (Wc & _), (Fb0 _ io) as (Wo & _). cbn [snd] in *.
+      apply (IH _ _ _ Wc Wo).
+      pose proof (proj1 IAB I k) as Ik. pose proof (proj1 IBA J k) as Jk. unfold crows in Ik, Jk.
+      rewrite (in_cget _ _ _ nda i), (in_cget _ _ _ ndb io) in Ik, Jk. tauto.
+Qed.
+
+(* ------------------------------------------------------------------ prefix lookups *)
+Lemma skipn_head d : forall (x : row), d < length x -> skipn d x = head d x :: skipn (S d) x.
+Proof.
+  unfold head. induction d as [|d IH]; intros [|y x] L; cbn in L; try lia; [reflexivity|].
+  cbn [skipn nth]. rewrite IH by lia. reflexivity.
+Qed.
+
+Lemma row_eqb_eq a b : row_eqb a b = true <-> a = b.
+Proof. destruct (row_eqb_spec a b); split; congruence. Qed.
+
+(* prefix_iter h d t p = the rows of t whose columns d, d+1, ... start with p, without repetition *)
+Lemma prefix_iter_spec h : forall d t p, wf h d t ->
+  Forall (fun x => h + d <= length x) (riter h t) ->
+  NoDup (prefix_iter h d t p) /\
+  forall x, In x (prefix_iter h d t p) <->
+            In x (riter h t) /\ has_prefix p (skipn d x) = true.
+Proof.
+  induction h as [|h IH]; intros d t p W Len.
+  - destruct t as [rows|]; [|contradiction]. cbn [prefix_iter riter] in *. split.
+    + apply NoDup_filter, W.
+    + intros x. rewrite filter_In. unfold has_prefix. tauto.
+  - destruct t as [|ch]; [contradiction|]. pose proof W as [nd F]. cbn [prefix_iter].
+    destruct p as [|y p].
+    + split; [apply (riter_nodup _ _ _ W)|]. intros x. unfold has_prefix. cbn. tauto.
+    + rewrite Forall_forall in Len.
+      assert (HP : forall x, In x (riter (S h) (Inner ch)) ->
+                 (has_prefix (y :: p) (skipn d x) = true <->
+                  head d x = y /\ has_prefix p (skipn (S d) x) = true)).
+      { intros x i. specialize (Len _ i). rewrite skipn_head by lia. unfold has_prefix.
+        cbn [length firstn row_eqb]. rewrite andb_true_iff, N.eqb_eq. intuition. }
+      destruct (cget ch y) as [c|] eqn:G.
+      * pose proof (cget_in _ _ G) as ic. pose proof F as F0. rewrite Forall_forall in F0.
+        destruct (F0 _ ic) as (Wc & _ & Hc). cbn [fst snd] in Wc, Hc. rewrite Forall_forall in Hc.
+        assert (Lenc : Forall (fun x => h + S d <= length x) (riter h c)).
+        { apply Forall_forall. intros x i. assert (j : In x (riter (S h) (Inner ch))).
+          { apply in_riter_inner. exists y, c. tauto. }
+          specialize (Len _ j). lia. }
+        destruct (IH (S d) c p Wc Lenc) as [ndp M]. split; [assumption|].
+        intros x. rewrite M. split.
+        -- intros [i P]. assert (j : In x (riter (S h) (Inner ch))).
+           { apply in_riter_inner. exists y, c. tauto. }
+           split; [assumption|]. apply (HP x j). split; [apply Hc, i|assumption].
+        -- intros [j P]. apply (HP x j) in P as [e P]. split; [|assumption].
+           apply (@in_rows_crows h d ch x nd F) in j. unfold crows in j. rewrite e, G in j. exact j.
+      * split; [constructor|]. intros x. split; [intros []|]. intros [j P].
+        apply (HP x j) in P as [e _]. apply (@chrows_head h d ch x F) in j. rewrite e in j.
+        apply cget_none in G. tauto.
+Qed.
+
+(* find_containing_leaf: the leaf holding r holds exactly the rows that agree with r on the
+   key columns d .. d+h-1 *)
+Lemma find_leaf_spec h : forall d t r, wf h d t ->
+  Forall (fun x => h + d <= length x) (riter h t) -> h + d <= length r ->
+  match find_leaf h d t r with
+  | Some L => In r (riter h t) /\ NoDup L /\
+              forall x, In x L <-> In x (riter h t) /\ firstn h (skipn d x) = firstn h (skipn d r)
+  | None => ~ In r (riter h t)
+  end.
+Proof.
+  induction h as [|h IH]; intros d t r W Len Lr.
+  - destruct t as [rows|]; [|contradiction]. cbn [find_leaf riter] in *.
+    destruct (existsb _ rows) eqn:E.
+    + apply existsb_exists in E as [x [i e]]. apply row_eqb_eq in e. subst x.
+      split; [assumption|split; [assumption|]]. intros x. cbn. tauto.
+    + intros i. assert (existsb (fun x => row_eqb r x) rows = true); [|congruence].
+      apply existsb_exists. exists r. split; [assumption|apply row_eqb_refl].
+  - destruct t as [|ch]; [contradiction|]. pose proof W as [nd F]. cbn [find_leaf].
+    rewrite Forall_forall in Len.
+    destruct (cget ch (head d r)) as [c|] eqn:G.
+    + pose proof (cget_in _ _ G) as ic. pose proof F as F0. rewrite Forall_forall in F0.
+      destruct (F0 _ ic) as (Wc & _ & Hc). cbn [fst snd] in Wc, Hc. rewrite Forall_forall in Hc.
+      assert (Sub : forall x, In x (riter h c) -> In x (riter (S h) (Inner ch))).
+      { intros x i. apply in_riter_inner. exists (head d r), c. tauto. }
+      assert (Lenc : Forall (fun x => h + S d <= length x) (riter h c)).
+      { apply Forall_forall. intros x i. specialize (Len _ (Sub _ i)). lia. }
+      specialize (IH (S d) c r Wc Lenc ltac:(lia)).
+      destruct (find_leaf h (S d) c r) as [L|].
+      * destruct IH as (ir & ndL & M). split; [apply Sub, ir|split; [assumption|]].
+        intros x. rewrite M. split.
+        -- intros [i e]. split; [apply Sub, i|]. specialize (Len _ (Sub _ i)).
+           rewrite (@skipn_head d x), (@skipn_head d r) by lia. cbn [firstn].
+           rewrite (Hc _ i), e. reflexivity.
+        -- intros [j e]. specialize (Len _ j).
+           rewrite (@skipn_head d x), (@skipn_head d r) in e by lia. cbn [firstn] in e.
+           inversion e as [[e1 e2]]. split; [|assumption].
+           apply (@in_rows_crows h d ch x nd F) in j. unfold crows in j. rewrite e1, G in j. exact j.
+      * intros j. apply IH. apply (@in_rows_crows h d ch r nd F) in j. unfold crows in j.
+        rewrite G in j. exact j.
+    + intros j. apply (@chrows_head h d ch r F) in j. apply cget_none in G. tauto.
+Qed.
+
+(* ------------------------------------------------------------------ histories *)
+Lemma nodup_bag_eqb l1 l2 :
+  NoDup l1 -> NoDup l2 -> (forall x, In x l1 <-> In x l2) -> bag_eqb l1 l2 = true.
+Proof.
+  intros n1 n2 H. apply bag_eqb_spec, cnt_perm, NoDup_Permutation; assumption.
+Qed.
+
+Lemma distinct_nodup h : NoDup (distinct h).
+Proof.
+  apply (NoDup_count_occ row_eq_dec). intros r. rewrite <- cnt_count_occ, cnt_distinct.
+  destruct (mem h r); lia.
+Qed.
+
+Lemma in_distinct h x : In x (distinct h) <-> In x h.
+Proof.
+  rewrite <- cnt_pos_in, cnt_distinct, <- mem_in. destruct (mem h x); split; try lia; try discriminate; auto.
+Qed.
+
+Lemma subset_b_equiv l l' m m' :
+  (forall x, In x l <-> In x l') -> (forall x, In x m <-> In x m') -> subset_b l m = subset_b l' m'.
+Proof.
+  intros Hl Hm. apply eq_iff_eq_true. rewrite !subset_b_spec. unfold incl.
+  split; intros I x i; apply Hm, I, Hl, i.
+Qed.
+
+(* refinement relation: the trie holds exactly the rows of the abstract history, all of the
+   shape's arity *)
+Definition Rg (nk arity : nat) (t : ght) (hist : bag) : Prop :=
+  wf nk 0 t /\ (forall x, In x (riter nk t) <-> In x hist) /\
+  Forall (fun x => length x = arity) hist.
+Definition Rg2 nk arity (p : ght * ght) (q : bag * bag) : Prop :=
+  Rg nk arity (fst p) (fst q) /\ Rg nk arity (snd p) (snd q).
+
+(* an answer of the model is the specified one, or it is the recorded exception: a panic
+   where None is specified *)
+Definition gans_ok (m s : gans) : Prop :=
+  gans_eqb false m s = true \/ (m = GACmp PPanic /\ s = GACmp PNone).
+
+Lemma Rg_sel nk a w p q : Rg2 nk a p q -> Rg nk a (sel w p) (sel w q).
+Proof. intros [R0 R1]. destruct w; assumption. Qed.
+
+Lemma Rg_upd nk a w p q t h : Rg2 nk a p q -> Rg nk a t h -> Rg2 nk a (upd w p t) (upd w q h).
+Proof. intros [R0 R1] R. destruct w; split; assumption. Qed.
+
+Lemma Rg_len nk a t hist : nk <= a -> Rg nk a t hist ->
+  Forall (fun x => nk + 0 <= length x) (riter nk t).
+Proof.
+  intros L (_ & M & F). apply Forall_forall. intros x i. apply M in i.
+  rewrite Forall_forall in F. rewrite (F _ i). lia.
+Qed.
+
+Lemma has_prefix_firstn n (r x : row) :
+  n <= length r -> (has_prefix (firstn n r) x = true <-> firstn n x = firstn n r).
+Proof.
+  intros L. unfold has_prefix. rewrite row_eqb_eq, firstn_length, Nat.min_l by assumption.
+  split; congruence.
+Qed.
+
+Lemma gstep_refines nk a p q o :
+  nk <= a -> gop_ok a o = true -> Rg2 nk a p q ->
+  Rg2 nk a (fst (gstep nk p o)) (fst (gspec_step nk q o)) /\
+  gans_ok (snd (gstep nk p o)) (snd (gspec_step nk q o)).
+Proof.
+  intros Lnk ok R2.
+  destruct o as [w r|w|w r|w|w pr|w r|w|w|w|w]; cbn [gstep gspec_step gop_ok] in *;
+    pose proof (@Rg_sel nk a w p q R2) as Rw; pose proof (@Rg_sel nk a (negb w) p q R2) as Ro;
+    pose proof Rw as (Ww & Mw & Fw); pose proof Ro as (Wo & Mo & Fo).
+  - (* insert *)
+    cbn [fst snd]. split; [|left; reflexivity]. apply Rg_upd; [assumption|].
+    destruct (insert_spec nk 0 (sel w p) r Ww) as [W' M']. split; [assumption|split].
+    + intros x. rewrite M', in_app_iff, Mw. cbn. intuition.
+    + apply Forall_app. split; [assumption|]. constructor; [apply Nat.eqb_eq, ok|constructor].
+  - (* merge *)
+    destruct (merge_spec nk 0 (sel w p) (sel (negb w) p) Ww Wo) as (W' & M' & Fl').
+    destruct (merge nk (sel w p) (sel (negb w) p)) as [t chg]. cbn [fst snd] in *. split.
+    + apply Rg_upd; [assumption|]. split; [assumption|split].
+      * intros x. rewrite M', in_app_iff, Mw, Mo. tauto.
+      * apply Forall_app. split; assumption.
+    + left. cbn. rewrite Fl', (@subset_b_equiv _ _ _ _ Mo Mw). apply eqb_reflx.
+  - (* contains *)
+    cbn [fst snd]. split; [assumption|]. left. cbn. apply eqb_true_of_eq, eq_iff_eq_true.
+    rewrite (contains_spec nk 0 (sel w p) r Ww), Mw, mem_in. tauto.
+  - (* recursive_iter *)
+    cbn [fst snd]. split; [assumption|]. left. cbn. apply nodup_bag_eqb.
+    + apply (riter_nodup nk 0 _ Ww).
+    + apply distinct_nodup.
+    + intros x. rewrite in_distinct. apply Mw.
+  - (* prefix_iter *)
+    cbn [fst snd]. split; [assumption|]. left. cbn.
+    destruct (prefix_iter_spec nk 0 (sel w p) pr Ww (@Rg_len nk a _ _ Lnk Rw)) as [ndp M]. apply nodup_bag_eqb.
+    + assumption.
+    + apply NoDup_filter, distinct_nodup.
+    + intros x. rewrite M, filter_In, in_distinct, Mw. cbn [skipn]. tauto.
+  - (* find_containing_leaf *)
+    cbn [fst snd]. split; [assumption|]. left. cbn.
+    assert (Lr : length r = a) by (apply Nat.eqb_eq, ok).
+    pose proof (find_leaf_spec nk 0 (sel w p) r Ww (@Rg_len nk a _ _ Lnk Rw) ltac:(lia)) as S.
+    destruct (find_leaf nk 0 (sel w p) r) as [L|].
+    + destruct S as (ir & ndL & M). apply Mw in ir. apply mem_in in ir. rewrite ir. cbn.
+      apply nodup_bag_eqb; [assumption|apply NoDup_filter, distinct_nodup|].
+      intros x. rewrite M, filter_In, in_distinct, Mw, has_prefix_firstn by lia. cbn [skipn]. tauto.
+    + destruct (mem (sel w q) r) eqn:E; [|reflexivity]. apply mem_in, Mw in E. tauto.
+  - (* partial_cmp *)
+    cbn [fst snd]. split; [assumption|].
+    pose proof (pcmp_spec nk 0 _ _ Ww Wo) as C. unfold subset_cmp.
+    rewrite <- (@subset_b_equiv _ _ _ _ Mw Mo), <- (@subset_b_equiv _ _ _ _ Mo Mw).
+    destruct (subset_b (riter nk (sel w p)) (riter nk (sel (negb w) p))) eqn:S1,
+             (subset_b (riter nk (sel (negb w) p)) (riter nk (sel w p))) eqn:S2;
+      try apply subset_b_spec in S1; try apply subset_b_spec in S2;
+      try (assert (N1 : ~ incl (riter nk (sel w p)) (riter nk (sel (negb w) p)))
+             by (intros I; apply subset_b_spec in I; congruence));
+      try (assert (N2 : ~ incl (riter nk (sel (negb w) p)) (riter nk (sel w p)))
+             by (intros I; apply subset_b_spec in I; congruence));
+      destruct (pcmp nk (sel w p) (sel (negb w) p)) as [[| |]| |]; cbn [cmp_rel] in C;
+      try (left; reflexivity); try (right; split; reflexivity); exfalso; tauto.
+  - (* == *)
+    cbn [fst snd]. split; [assumption|]. left. cbn. apply eqb_true_of_eq, eq_iff_eq_true.
+    rewrite (peq_spec nk 0 _ _ Ww Wo), set_eqb_spec. split.
+    + intros [I J] r. apply mem_ext. rewrite <- Mw, <- Mo. split; [apply I|apply J].
+    + intros H. split; intros x i; [apply Mo|apply Mw]; apply mem_in;
+        [rewrite <- H|rewrite H]; apply mem_in; [apply Mw|apply Mo]; assumption.
+  - (* height *)
+    cbn [fst snd]. split; [assumption|]. left. cbn. apply N.eqb_refl.
+  - (* is_bot *)
+    cbn [fst snd]. split; [assumption|]. left. cbn. apply eqb_true_of_eq, eq_iff_eq_true.
+    rewrite (is_bot_spec nk 0 _ Ww), Nat.eqb_eq, length_zero_iff_nil. split.
+    + intros E. destruct (sel w q) as [|x l]; [reflexivity|]. exfalso.
+      assert (i : In x (riter nk (sel w p))) by (apply Mw; left; reflexivity). rewrite E in i. exact i.
+    + intros E. destruct (riter nk (sel w p)) as [|x l] eqn:E'; [reflexivity|]. exfalso.
+      assert (i : In x (sel w q)) by (apply Mw; left; reflexivity). rewrite E in i. exact i.
+Qed.
+
+Lemma grun_refines nk a ops : nk <= a ->
+  (forall o, In o ops -> gop_ok a o = true) ->
+  forall p q, Rg2 nk a p q -> Forall2 gans_ok (grun_from nk p ops) (gspec_from nk q ops).
+Proof.
+  intros Lnk. induction ops as [|o ops IH]; intros F p q R2; [constructor|].
+  cbn [grun_from gspec_from].
+  pose proof (@gstep_refines nk a p q o Lnk (F o (or_introl eq_refl)) R2) as [R' A].
+  destruct (gstep nk p o) as [p' am], (gspec_step nk q o) as [q' asp]. cbn [fst snd] in *.
+  constructor; [assumption|]. apply IH; [|assumption]. intros o' i. apply F. right. assumption.
+Qed.
+
+(* Every answer of every insert/merge/lookup/compare history on two tries of any height is the
+   answer of the plain set of rows -- except that partial_cmp may panic where None is specified. *)
+Theorem ght_history_refines nk a ops :
+  gops_ok nk a ops = true ->
+  Forall2 gans_ok (gmodel_run nk ops) (gspec_run nk ops).
+Proof.
+  unfold gops_ok. rewrite !andb_true_iff, Nat.leb_le, forallb_forall. intros [[Lnk _] F].
+  unfold gmodel_run, gspec_run. apply (@grun_refines nk a ops Lnk F).
+  assert (R : Rg nk a (empty nk) []).
+  { split; [apply wf_empty|split; [|constructor]]. intros x. rewrite riter_empty. tauto. }
+  split; exact R.
+Qed.
+
+(* ------------------------------------------------------------------ what the executable comparison means *)
+Definition gans_equiv (x y : gans) : Prop :=
+  match x, y with
+  | GARows a, GARows b => Permutation a b
+  | GAOptRows (Some a), GAOptRows (Some b) => Permutation a b
+  | GAOptRows None, GAOptRows None => True
+  | GARows _, _ | _, GARows _ | GAOptRows _, _ | _, GAOptRows _ => False
+  | _, _ => x = y
+  end.
+
+Lemma gans_eqb_spec x y : gans_eqb false x y = true <-> gans_equiv x y.
+Proof.
+  destruct x as [b|n|l|[l|]|c], y as [b'|n'|l'|[l'|]|c']; cbn;
+    try (split; [discriminate|congruence]); try tauto;
+    try (split; [discriminate|intros []]).
+  - rewrite eqb_true_iff. split; congruence.
+  - rewrite N.eqb_eq. split; congruence.
+  - rewrite bag_eqb_spec. apply cnt_perm.
+  - rewrite bag_eqb_spec. apply cnt_perm.
+  - rewrite orb_false_r. destruct c as [[| |]| |], c' as [[| |]| |]; cbn;
+      split; try discriminate; try reflexivity; try congruence.
+Qed.
+
+Lemma ganswers_eqb_spec xs : forall ys,
+  ganswers_eqb false xs ys = true <-> Forall2 gans_equiv xs ys.
+Proof.
+  induction xs as [|x xs IH]; intros [|y ys]; cbn.
+  - split; [constructor|reflexivity].
+  - split; [discriminate|intros H; inversion H].
+  - split; [discriminate|intros H; inversion H].
+  - rewrite andb_true_iff, IH, gans_eqb_spec. split.
+    + intros [? ?]. constructor; assumption.
+    + intros H. inversion H; subst. tauto.
+Qed.
+
+Lemma c08_holds_b_spec nk ops impl :
+  C08_holds_b nk ops impl = true <-> Forall2 gans_equiv impl (gspec_run nk ops).
+Proof. apply ganswers_eqb_spec. Qed.
